@@ -960,4 +960,137 @@ Proof.
     rewrite hrun by (unfold needelems; unfold ExprFull_base.full in *; lia). reflexivity.
 Qed.
 
+(* ---- an expression does not start with a token that ends one ---- *)
+Lemma hd_wrapp b ps t r : toks (wrapp b ps) = t :: r -> (b = true /\ t = KLP) \/ (b = false /\ toks ps = t :: r).
+Proof. rewrite toks_wrapp. destruct b; [intros h; injection h as <- _; auto|auto]. Qed.
+
+Lemma hd_app {A} (a b : list A) t r : a ++ b = t :: r -> (exists r', a = t :: r') \/ (a = [] /\ b = t :: r).
+Proof. destruct a as [|x a']; [auto|]. cbn [app]. intros h. injection h as -> _. left. eexists. reflexivity. Qed.
+
+Lemma pp_first e : forall ps t r, pp e = Some ps -> toks ps = t :: r -> ender t = false.
+Proof.
+  induction e as [p a|p k s|p op x IHx|p op l r0 IHl IHr|p f args v IHf Hargs|p x i IHx IHi|p x lo hi mx fl IHx Hlo Hhi Hmx|p x n IHx
+    |p x t0 IHx Ht|p t0 kvs Ht Hkvs|p k v Hk IHv|p e' IHe|p l e' Hl IHe|p d e' IHe|p m ps0 rs v Hps Hrs|p fs Hfs|p|p l r0 IHl IHr|p s|p] using ex_ind2;
+    intros ps t r hpp ht; cbn [ExprFullM.pp] in hpp.
+  - injection hpp as <-. cbn in ht. injection ht as <- _. reflexivity.
+  - injection hpp as <-. cbn in ht. injection ht as <- _. reflexivity.
+  - inv_pp hpp. try subst ps. rewrite !toks_app in ht.
+    apply hd_app in ht. destruct ht as [[r' ht]|[_ ht]].
+    + unfold op_pieces in ht. destruct b as [|c0 b']; [discriminate|]. rewrite toks_sep_syms in ht.
+      destruct (split_sp (c0 :: b')); [discriminate|]. cbn [map] in ht. injection ht as <- _. reflexivity.
+    + apply hd_app in ht. destruct ht as [[r' ht]|[_ ht]]; [destruct (op =? op_extended_not); discriminate|].
+      apply hd_wrapp in ht. destruct ht as [[_ ->]|[_ ht]]; [reflexivity|]. eapply IHx; [reflexivity|exact ht].
+  - inv_pp hpp. try subst ps. rewrite !toks_app in ht.
+    apply hd_app in ht. destruct ht as [[r' ht]|[hnil _]].
+    + apply hd_wrapp in ht. destruct ht as [[_ ->]|[_ ht]]; [reflexivity|]. eapply IHl; [reflexivity|exact ht].
+    + exfalso. match type of hnil with toks (wrapp ?b ?l0) = [] => pose proof (len_wrapp b l0 (pp_nonempty l l0 ltac:(assumption))) as hl end.
+      rewrite hnil in hl. cbn in hl. lia.
+  - inv_pp hpp. try subst ps. rewrite !toks_app in ht.
+    apply hd_app in ht. destruct ht as [[r' ht]|[hnil _]].
+    + apply hd_wrapp in ht. destruct ht as [[_ ->]|[_ ht]]; [reflexivity|]. eapply IHf; [reflexivity|exact ht].
+    + exfalso. match type of hnil with toks (wrapp ?b ?l0) = [] => pose proof (len_wrapp b l0 (pp_nonempty f l0 ltac:(assumption))) as hl end.
+      rewrite hnil in hl. cbn in hl. lia.
+  - inv_pp hpp. try subst ps. rewrite !toks_app in ht. apply hd_app in ht. destruct ht as [[r' ht]|[hnil _]].
+    + eapply IHx; [reflexivity|exact ht].
+    + exfalso. match type of hnil with toks ?l0 = [] => pose proof (pp_nonempty x l0 ltac:(assumption)) as hl end. rewrite hnil in hl. cbn in hl. lia.
+  - inv_pp hpp. try subst ps. rewrite !toks_app in ht. apply hd_app in ht. destruct ht as [[r' ht]|[hnil _]].
+    + eapply IHx; [reflexivity|exact ht].
+    + exfalso. match type of hnil with toks ?l0 = [] => pose proof (pp_nonempty x l0 ltac:(assumption)) as hl end. rewrite hnil in hl. cbn in hl. lia.
+  - inv_pp hpp. try subst ps. rewrite !toks_app in ht. apply hd_app in ht. destruct ht as [[r' ht]|[hnil _]].
+    + eapply IHx; [reflexivity|exact ht].
+    + exfalso. match type of hnil with toks ?l0 = [] => pose proof (pp_nonempty x l0 ltac:(assumption)) as hl end. rewrite hnil in hl. cbn in hl. lia.
+  - inv_pp hpp. try subst ps. rewrite !toks_app in ht. apply hd_app in ht. destruct ht as [[r' ht]|[hnil _]].
+    + eapply IHx; [reflexivity|exact ht].
+    + exfalso. match type of hnil with toks ?l0 = [] => pose proof (pp_nonempty x l0 ltac:(assumption)) as hl end. rewrite hnil in hl. cbn in hl. lia.
+  - destruct (opt_pieces (omap pp t0)) as [pt|] eqn:ept; [|discriminate].
+    assert (hps : exists q, ps = pt ++ ExprFullM.T KLBrace ++ q).
+    { destruct expanded; [inv_pp hpp; try subst ps; eexists; reflexivity|].
+      destruct kvs; injection hpp as <-; eexists; reflexivity. }
+    destruct hps as [q ->]. rewrite !toks_app in ht. apply hd_app in ht. destruct ht as [[r' ht]|[_ ht]].
+    + destruct t0 as [t'|]; cbn [omap opt_pieces Qo] in *; [eapply Ht; [exact ept|exact ht]|]. injection ept as <-. discriminate.
+    + cbn in ht. injection ht as <- _. reflexivity.
+  - inv_pp hpp. try subst ps. cbn in ht. injection ht as <- _. reflexivity.
+  - inv_pp hpp. try subst ps. cbn in ht. injection ht as <- _. reflexivity.
+  - inv_pp hpp. try subst ps. cbn in ht. injection ht as <- _. reflexivity.
+  - inv_pp hpp. try subst ps. rewrite !toks_app in ht. destruct (d =? dir_recv); cbn in ht; injection ht as <- _; reflexivity.
+  - destruct (join_opt _ _) as [pa|]; [|discriminate].
+    destruct rs as [|[[a|] [t1|]] [|q rs]]; inv_pp hpp; try discriminate hpp; try subst ps; cbn in ht; injection ht as <- _; reflexivity.
+  - inv_pp hpp. try subst ps. cbn in ht. injection ht as <- _. reflexivity.
+  - injection hpp as <-. cbn in ht. injection ht as <- _. reflexivity.
+  - inv_pp hpp. try subst ps. rewrite !toks_app in ht. apply hd_app in ht. destruct ht as [[r' ht]|[hnil _]].
+    + eapply IHl; [reflexivity|exact ht].
+    + exfalso. match type of hnil with toks ?l0 = [] => pose proof (pp_nonempty l l0 ltac:(assumption)) as hl end. rewrite hnil in hl. cbn in hl. lia.
+  - injection hpp as <-. cbn in ht. injection ht as <- _. reflexivity.
+  - injection hpp as <-. cbn in ht. injection ht as <- _. reflexivity.
+Qed.
+
+(* ---- types ---- *)
+Ltac simp_leaf :=
+  cbn [ExprFull_base.cost ExprFull_base.need ExprFull_base.spine ExprFull_base.lastop ExprFull_base.norm is_operator negb app omap
+       ExprFull_base.fullo Nat.add] in *.
+
+Lemma A_slice p e' : A_stmt e' -> A_stmt (XSlice p e').
+Proof.
+  intros IHe ty el nxt hok ps hpp g0 b0 c g P rest hnxt hh.
+  cbn [ExprFullOk.ok] in hok. cbn [ExprFullM.pp] in hpp.
+  destruct (pp e') as [pe|] eqn:epe; [|discriminate]. injection hpp as <-.
+  exists true. intros n hn. simp_leaf. rewrite andb_true_r. norm_toks.
+  rewrite po_slice, (B_typ e' IHe nxt pe rest n hok epe hnxt) by fuel. reflexivity.
+Qed.
+
+Lemma A_map p k v : Qo A_stmt k -> A_stmt v -> A_stmt (XMap p k v).
+Proof.
+  intros IHk IHv ty el nxt hok ps hpp g0 b0 c g P rest hnxt hh.
+  cbn [ExprFullOk.ok] in hok. cbn [ExprFullM.pp] in hpp.
+  destruct k as [k'|]; [|discriminate]. cbn [Qo] in IHk.
+  apply andb_prop in hok. destruct hok as [hk hv].
+  destruct (pp k') as [pk|] eqn:epk; [|discriminate].
+  destruct (pp v) as [pv|] eqn:epv; [|discriminate]. injection hpp as <-.
+  exists true. intros n hn. simp_leaf. rewrite andb_true_r. norm_toks.
+  rewrite po_map, (B_typ k' IHk (Some KRBrack) pk (KRBrack :: toks pv ++ rest) n hk epk eq_refl) by fuel.
+  cbn [rbind]. rewrite (B_typ v IHv nxt pv rest n hv epv hnxt) by fuel. reflexivity.
+Qed.
+
+Lemma A_array p l e' : Qo A_stmt l -> A_stmt e' -> A_stmt (XArray p l e').
+Proof.
+  intros IHl IHe ty el nxt hok ps hpp g0 b0 c g P rest hnxt hh.
+  cbn [ExprFullOk.ok] in hok. cbn [ExprFullM.pp] in hpp.
+  apply andb_prop in hok. destruct hok as [hl he].
+  destruct (opt_pieces (omap pp l)) as [pl|] eqn:epl; [|discriminate].
+  destruct (pp e') as [pe|] eqn:epe; [|discriminate]. injection hpp as <-.
+  exists true. intros n hn. simp_leaf. rewrite andb_true_r.
+  destruct l as [l'|]; cbn [omap opt_pieces Qo ExprFull_base.fullo] in *.
+  - norm_toks. rewrite po_array_len.
+    + rewrite (B_expr l' IHl (Some KRBrack) pl (KRBrack :: toks pe ++ rest) n hl eq_refl epl eq_refl) by fuel.
+      cbn [rbind]. rewrite (B_typ e' IHe nxt pe rest n he epe hnxt) by fuel. reflexivity.
+    + destruct (first_tok_cons l' pl epl) as [t [r [h1 _]]]. rewrite h1. cbn [app].
+      pose proof (pp_first l' pl t r epl h1) as hen. destruct t; try reflexivity; discriminate.
+  - norm_toks. rewrite po_array_dots, (B_typ e' IHe nxt pe rest n he epe hnxt) by fuel. reflexivity.
+Qed.
+
+Lemma A_chan p d e' : A_stmt e' -> A_stmt (XChan p d e').
+Proof.
+  intros IHe ty el nxt hok ps hpp g0 b0 c g P rest hnxt hh.
+  cbn [ExprFullOk.ok] in hok. cbn [ExprFullM.pp] in hpp.
+  apply andb_prop in hok. destruct hok as [hok he].
+  apply andb_prop in hok. destruct hok as [hdir hf3].
+  destruct (pp e') as [pe|] eqn:epe; [|discriminate]. injection hpp as <-.
+  exists c. intros n hn. simp_leaf. rewrite andb_true_r.
+  destruct (d =? dir_recv) eqn:e1.
+  - apply N.eqb_eq in e1. subst d.
+    replace (dir_recv =? dir_send) with false by (symmetry; apply N.eqb_neq; exact dir_recv_send).
+    norm_toks. rewrite po_recvchan, (B_typ e' IHe nxt pe rest n he epe hnxt) by fuel. reflexivity.
+  - destruct (d =? dir_send) eqn:e2.
+    + apply N.eqb_eq in e2. subst d. norm_toks. rewrite po_chan. unfold chan_dir.
+      replace (bytes_eqb sym_arrow sym_arrow) with true by (symmetry; apply bytes_eqb_eq; reflexivity).
+      cbn [fst snd]. rewrite (B_typ e' IHe nxt pe rest n he epe hnxt) by fuel. reflexivity.
+    + rewrite !orb_false_r in hdir. apply N.eqb_eq in hdir. subst d.
+      rewrite N.eqb_refl in hf3. cbn [andb] in hf3. apply negb_true_iff in hf3.
+      norm_toks. rewrite po_chan.
+      destruct (first_tok_cons e' pe epe) as [t [r [h1 h2]]]. rewrite h2 in hf3.
+      assert (hcd : chan_dir dir_none dir_send sym_arrow (toks pe ++ rest) = (dir_none, toks pe ++ rest)).
+      { unfold chan_dir. rewrite h1. cbn [app]. destruct t; try reflexivity. rewrite hf3. reflexivity. }
+      rewrite hcd. cbn [fst snd]. rewrite (B_typ e' IHe nxt pe rest n he epe hnxt) by fuel. reflexivity.
+Qed.
+
 End Main.
